@@ -29,6 +29,7 @@ pub mod c25;
 pub mod c29;
 pub mod c30;
 pub mod c31;
+pub mod c32;
 pub mod progcase;
 
 pub type CheckFn = fn(&mut Runner);
@@ -63,5 +64,6 @@ pub fn registry() -> Vec<(&'static str, CheckFn)> {
         ("C29", c29::run as CheckFn),
         ("C30", c30::run as CheckFn),
         ("C31", c31::run as CheckFn),
+        ("C32", c32::run as CheckFn),
     ]
 }
